@@ -294,7 +294,7 @@ func (s *Service) issueBuilderBidRequests(ctx context.Context,
 	for _, relay := range proposerConfig.Relays {
 		builderClient, err := util.FetchBuilderClient(ctx, relay.Address, s.monitor, s.releaseVersion)
 		if err != nil {
-			log.Error().Str("address", builderClient.Address()).Err(err).Msg("Failed to obtain builder client for block auction")
+			log.Error().Str("address", relay.Address).Err(err).Msg("Failed to obtain builder client for block auction")
 			continue
 		}
 		provider, isProvider := builderClient.(builderclient.BuilderBidProvider)
